@@ -61,6 +61,16 @@ def step (d : DState) (line : String) : DState × Option String :=
         | (.error e, _) => (d, some s!"err {e.name}")
       | _, _ => (d, some "bad-op")
     | _, _, _ => (d, some "bad-op")
+  | some [.atom "fault", .atom "r", .atom tid, .atom k, .atom en, .atom hex, .atom hs] =>
+    match d.ty? tid, k.toNat?, Err.ofName? en, fromHex hex, parseIntList hs with
+    | some t, some k, some e, some bs, some handles =>
+      let s : Src := { bytes := bs, handles, fault := .armed k e }
+      match decInto t (dflt t) s with
+      | (.ok _, s') =>
+        (d, some s!"err none {match s'.fault with | .zombie _ => "zombie" | _ => "clean"}")
+      | (.error e', s') =>
+        (d, some s!"err {e'.name} {match s'.fault with | .zombie _ => "zombie" | _ => "clean"}")
+    | _, _, _, _, _ => (d, some "bad-op")
   | some [.atom "valid", .atom tid, v] =>
     match d.ty? tid, toVal v with
     | some t, some v => (d, some (if valid t v then "valid" else "invalid"))
